@@ -80,7 +80,7 @@ func opAmount(_ *HState, a Event) Event {
 		case "Format":
 			v := gI64(a, "a")
 			u := bchutil.AmountUnit(gInt(a, "u"))
-			s := bchutil.Amount(v).Format(u)
+			s := retainStr("Amount", "Format", bchutil.Amount(v).Format(u))
 			if gBool(a, "str") {
 				s = bchutil.Amount(v).String()
 			}
